@@ -126,6 +126,9 @@ type Opts struct {
 	Changes bool
 	// OnlyNegotiation: every table is a negotiation table (genNegotiation): streams about the media stages.
 	OnlyNegotiation bool
+	// ManyVarRoots: every root path consists of 3, 5, 6 or 7 variables (streams about the variable names a
+	// request is bound to when root and route both declare some).
+	ManyVarRoots bool
 }
 
 func (o Opts) res() []rePool {
@@ -378,16 +381,25 @@ func GenConfig(r *rng.R, o Opts) Config {
 			if o.PlainRoots {
 				rootToks = genToks(r, o, 1+r.Intn(2), &names, true)
 			}
+			// which kind of root: the shares of the nested and twisted roots are what they were before the
+			// wide dimensions were added (a quarter each of the later roots); string-prefix siblings and
+			// many-variable roots take their share from the plain draws
+			kind := r.Intn(100)
 			var sib []Tok
-			if o.Wide && si > 0 && try < 5 && r.Chance(1, 5) {
+			if o.Wide && si > 0 && try < 5 && kind >= 50 && kind < 60 {
 				sib = stringPrefixSibling(r, cfg)
 			}
-			if o.Wide && o.RootVars && !o.PlainRoots && r.Chance(1, 10) {
-				// a root path with many variables (3–7), a literal here and there
+			if o.ManyVarRoots || o.Wide && o.RootVars && !o.PlainRoots && kind >= 60 && kind < 66 {
+				// a root path with many variables: all variables with a count at which append leaves spare
+				// capacity (3, 5, 6, 7) when asked for, else 3–7 tokens with a literal here and there
 				rootToks = nil
-				for n := 3 + r.Intn(5); len(rootToks) < n; {
+				n := 3 + r.Intn(5)
+				if o.ManyVarRoots {
+					n = []int{3, 5, 6, 7}[r.Intn(4)]
+				}
+				for len(rootToks) < n {
 					names++
-					if r.Chance(3, 4) {
+					if o.ManyVarRoots || r.Chance(3, 4) {
 						rootToks = append(rootToks, Tok{Kind: "var", Name: fmt.Sprintf("v%d", names)})
 					} else {
 						rootToks = append(rootToks, Tok{Kind: "lit", Lit: r.Pick(Lits[:8])})
@@ -395,7 +407,7 @@ func GenConfig(r *rng.R, o Opts) Config {
 				}
 			} else if sib != nil {
 				rootToks = sib
-			} else if si > 0 && try < 5 && r.Chance(1, 4) {
+			} else if si > 0 && try < 5 && kind < 25 {
 				// a root nested in or around an earlier one (/a, /a/b, /a/b/c in any registration order): the
 				// longest matching root must win whatever came first
 				prev := cfg.Services[r.Intn(len(cfg.Services))].RootToks
@@ -405,14 +417,30 @@ func GenConfig(r *rng.R, o Opts) Config {
 				default:
 					rootToks = append(append([]Tok{}, prev...), Tok{Kind: "lit", Lit: r.Pick(Lits[:8])})
 				}
-			} else if si > 0 && o.RootVars && try < 5 && r.Chance(1, 3) {
+			} else if si > 0 && o.RootVars && try < 5 && kind >= 25 && kind < 50 {
 				// a twist of an earlier root: same length, literal and variable positions flipped here and
 				// there (LV next to VL, LVV / VLV / VVL …): roots of different shape that claim the same URLs
 				prev := cfg.Services[r.Intn(len(cfg.Services))].RootToks
 				if len(prev) > 0 {
 					rootToks = make([]Tok, len(prev))
+					// half of the twists MIRROR the mask (LV -> VL, LVV -> VVL): as many literals and variables
+					// as the earlier root, at other positions — roots that only a positional weight tells apart
+					nl := 0
+					for _, t := range prev {
+						if t.Kind == "lit" {
+							nl++
+						}
+					}
+					mirror := nl > 0 && nl < len(prev) && r.Chance(1, 2)
 					for i, t := range prev {
 						switch {
+						case mirror:
+							if prev[len(prev)-1-i].Kind == "lit" {
+								rootToks[i] = Tok{Kind: "lit", Lit: r.Pick(Lits[:8])}
+							} else {
+								names++
+								rootToks[i] = Tok{Kind: "var", Name: fmt.Sprintf("v%d", names)}
+							}
 						case r.Chance(1, 2):
 							rootToks[i] = t
 							if t.Kind != "lit" {
@@ -709,6 +737,10 @@ func GenReq(r *rng.R, o Opts, cfg Config) Req {
 	}
 	if n := len(rt.Toks); o.Wide && n > 0 && len(segs) == n && rt.Toks[n-1].Kind == "var" && rt.Toks[n-1].Verb == "" && r.Chance(1, 4) {
 		segs[n-1] = r.Pick(ExtVals) // the resource is named like a file
+	}
+	if n := len(rt.Toks); o.Wide && n > 0 && len(segs) == n && rt.Toks[n-1].Kind == "re" && rt.Toks[n-1].Verb == "" && r.Chance(1, 5) {
+		// one segment MORE than the template, behind a regex variable (only the {v:*} form may take it)
+		segs = append(segs, r.Pick(VarVals))
 	}
 	// mutations
 	for m := r.Intn(6); m < 2; m++ {
